@@ -155,7 +155,7 @@ def c02(ctx):
                                overrides=ov, label="tamper classes expanded, key type " + kt)
         first = first or summ["_first_edge"]
         ctx.cov["evaluations"] += summ["extra"]["tamper_instances"]
-        if summ["extra"]["tamper_instances"] < 500:
+        if not ctx.violations and summ["extra"]["tamper_instances"] < 500:
             raise Infra("tamper expansion did not run")
     if ctx.tier == "thorough":
         kt = kts_for(ctx, 1)[0]
@@ -183,7 +183,7 @@ def c09(ctx):
                                overrides={"TD": td}, label="window cube, time delta %d" % td)
         saved[td] = sv
         first = first or summ["_first_edge"]
-        if summ["extra"]["time_validator_checks"] == 0:
+        if not ctx.violations and summ["extra"]["time_validator_checks"] == 0:
             raise Infra("time validator binding did not run")
     nvar = 14
     variants = list(range(1, nvar))
@@ -380,7 +380,7 @@ def c11(ctx):
         raise Infra("the may-alter classification of JsonPatchGuard.tla disagrees with the real library on a list "
                     "that validation refuses: the model, not the code, is wrong: %s" %
                     [m.get("key") for m in ctx.violations if m.get("kind") == "model-binding"][:3])
-    if summ["extra"]["accepted_by_validator"] == 0 or summ["extra"]["altering_lists_stopped_by_validation"] == 0:
+    if not ctx.violations and (summ["extra"]["accepted_by_validator"] == 0 or summ["extra"]["altering_lists_stopped_by_validation"] == 0):
         raise Infra("vacuous: no list accepted / no altering list stopped")
     ctx.tlc_check("MC_JsonPatchGuard.tla", "MC_JsonPatchGuard_neg.cfg", expect_violation=True,
                   label="negative configuration: validator without the from conjunct")
@@ -423,7 +423,7 @@ def c07(ctx):
     _, summ = ctx.tlc_pipe("MC_ParserRules.tla", "MC_ParserRules.cfg", ["parser-replay"],
                            overrides={"MaxDev": md, "DefKT": q(kt)}, workers=4,
                            label="requests x relative configurations, <= %d deviations" % md, timeout=3000)
-    if summ["extra"]["accepted"] < 20:
+    if not ctx.violations and summ["extra"]["accepted"] < 20:
         raise Infra("vacuous: hardly any request accepted")
     ctx.negctl_replay(["parser-replay"], summ["_first_edge"], flip_accept)
     n = 4000 if ctx.tier == "quick" else 60000
@@ -502,7 +502,7 @@ def c04(ctx):
         _, summ = ctx.tlc_pipe("MC_Chain.tla", "MC_Chain.cfg", ["chain-replay", "-kts", kts],
                                overrides={"MaxLen": ml, "Alg": alg}, workers=4,
                                label="chains <= %d operations (model algorithm %d), key types %s" % (ml, alg, kts))
-        if summ["extra"]["links_checked"] == 0:
+        if not ctx.violations and summ["extra"]["links_checked"] == 0:
             raise Infra("no link checked")
         if alg == 256 and ctx.tier == "quick":
             break
@@ -617,7 +617,7 @@ def c17(ctx):
     _, summ = ctx.tlc_pipe("MC_LongForm.tla", "MC_LongForm.cfg", ["longform-replay"], overrides={"Repeats": rep}, workers=4,
                            label="creations x %d, resolution probes" % rep, timeout=3000)
     ctx.cov["evaluations"] += summ["extra"]["single_character_changes"]
-    if summ["extra"]["single_character_changes"] < 1000:
+    if not ctx.violations and summ["extra"]["single_character_changes"] < 1000:
         raise Infra("single-character sweep did not run")
 
     def wrong(rec):
@@ -737,7 +737,7 @@ def c19(ctx):
                 "IsValidOriginalDocument / IsValidPayload) x valid template (requests of every type with the signed data "
                 "as a JSON sub-tree that is re-signed after corruption, long-form DIDs with the initial state as a "
                 "sub-tree, JWS, JWK, documents, patches of every action incl. RFC 6902 on arrays and remove lists naming "
-                "more ids than exist) x node position 0..MaxPos of the template's JSON tree x 20 replacements (null, "
+                "more ids than exist; chains of <= MaxChain copy / move operations among 6 locations of one document) x node position 0..MaxPos of the template's JSON tree x 20 replacements (null, "
                 "true, 0, -1, 1e400, empty / 60 kB string, [], {}, 5000-deep nesting, member removed / duplicated, other "
                 "operation type, numeric string, array of itself, negative / huge array index in a pointer, pointer into "
                 "its own source, odd keys, invalid UTF-8). Every plan is executed in a worker subprocess under recover "
@@ -749,7 +749,8 @@ def c19(ctx):
                        "takes 14 s), which terminates and is not a violation",
                        "absence of panics in third-party code for inputs that were not tried cannot be concluded"]
     mp = 15 if ctx.tier == "quick" else 47
-    _, summ = ctx.tlc_pipe("MC_Robust.tla", "MC_Robust.cfg", ["robust-replay"], overrides={"MaxPos": mp}, workers=4,
+    mc = 2 if ctx.tier == "quick" else 3
+    _, summ = ctx.tlc_pipe("MC_Robust.tla", "MC_Robust.cfg", ["robust-replay"], overrides={"MaxPos": mp, "MaxChain": mc}, workers=4,
                            timeout=3000, label="corruption plans, positions 0..%d" % mp)
     ctx.cov["distinct_nontrivial"] = max(2, summ.get("distinct", 2))
     n = 300 if ctx.tier == "quick" else 20000
